@@ -10,6 +10,7 @@ from .protocolentities import ResultRequestUploadIqProtocolEntity
 from .protocolentities import MediaMessageProtocolEntity
 from .protocolentities import ExtendedTextMediaMessageProtocolEntity
 from yowsup.layers.protocol_iq.protocolentities import IqProtocolEntity, ErrorIqProtocolEntity
+from yowsup.layers.protocol_messages.proto.e2e_pb2 import Message
 import logging
 
 logger = logging.getLogger(__name__)
@@ -33,6 +34,10 @@ class YowMediaProtocolLayer(YowProtocolLayer):
     def recvMessageStanza(self, node):
         if node.getAttributeValue("type") == "media":
             mediaNode = node.getChild("proto")
+            if self.isSenderKeyDistributionOnly(mediaNode):
+                # the per-participant part of a group message carries only the sender key, which the
+                # encryption layer has already processed; the media payload follows in a node of its own
+                return
             if mediaNode.getAttributeValue("mediatype") == "image":
                 entity = ImageDownloadableMediaMessageProtocolEntity.fromProtocolTreeNode(node)
                 self.toUpper(entity)
@@ -60,6 +65,12 @@ class YowMediaProtocolLayer(YowProtocolLayer):
             else:
                 logger.warn("Unsupported mediatype: %s, will send receipts" % mediaNode.getAttributeValue("mediatype"))
                 self.toLower(MediaMessageProtocolEntity.fromProtocolTreeNode(node).ack(True).toProtocolTreeNode())
+
+    def isSenderKeyDistributionOnly(self, mediaNode):
+        message = Message()
+        message.ParseFromString(mediaNode.getData())
+        fields = message.ListFields()
+        return len(fields) == 1 and fields[0][0].name == "sender_key_distribution_message"
 
     def sendIq(self, entity):
         """
